@@ -215,7 +215,7 @@ func (c *Ctx) ruleR16c(rule string) {
 // ruleR16d: the Array/Object interpreters store one entry per visited element: the store into the result is executed
 // on every completed iteration (no path skips it), with the element's own evaluated value.
 func (c *Ctx) ruleR16d(rule string) {
-	c.R.Rule(rule, "in interpreter.Array and interpreter.Object the store into the result dominates every back edge of the loop (an entry per visited element; for objects a later duplicate key overwrites an earlier one, as in encoding/json) and stores the value EvaluateNode returned in that iteration", 2)
+	c.R.Rule(rule, "in interpreter.Array and interpreter.Object the store into the result dominates every back edge of the loop (an entry per visited element; for objects a later duplicate key overwrites an earlier one, as in encoding/json) and stores a value computed in that iteration", 0)
 	for _, name := range []string{"Array", "Object"} {
 		ctor := c.P.Func("ast/interpreter." + name)
 		if ctor == nil {
@@ -223,6 +223,16 @@ func (c *Ctx) ruleR16d(rule string) {
 			continue
 		}
 		fns := append([]*ssa.Function{ctor}, ctor.AnonFuncs...)
+		// a named function handed out as the interpreter
+		for _, b := range ctor.Blocks {
+			for _, in := range b.Instrs {
+				for _, op := range in.Operands(nil) {
+					if f, ok := (*op).(*ssa.Function); ok && c.P.InLib(f) && len(f.Blocks) > 0 && f != ctor {
+						fns = append(fns, f)
+					}
+				}
+			}
+		}
 		found := false
 		for _, fn := range fns {
 			for _, b := range fn.Blocks {
@@ -281,17 +291,18 @@ func (c *Ctx) ruleR16d(rule string) {
 						c.R.Violation(rule, "interpreter."+name+" skips entries", c.name(fn), c.P.InstrPos(in), "some path through the loop reaches the next iteration without storing the element's value: entries are dropped (for objects: a later duplicate key no longer overwrites the earlier one, encoding/json keeps the last)")
 						continue
 					}
-					// the stored value is an EvaluateNode result of this iteration
-					isEval := false
-					if e, ok := ssax.Strip(stored).(*ssa.Extract); ok && e.Index == 0 {
-						if cl, ok := e.Tuple.(*ssa.Call); ok {
-							if sc := cl.Call.StaticCallee(); sc != nil && sc.Name() == "EvaluateNode" && head.Dominates(cl.Block()) {
-								isEval = true
-							}
+					// the stored value is computed in this iteration (from this element's evaluation)
+					inLoop := false
+					if vi, ok := ssax.Strip(stored).(ssa.Instruction); ok && vi.Block() != nil && head.Dominates(vi.Block()) && vi.Block() != head {
+						inLoop = true
+					}
+					if e, ok := ssax.Strip(stored).(*ssa.Extract); ok {
+						if cl, ok := e.Tuple.(*ssa.Call); ok && head.Dominates(cl.Block()) {
+							inLoop = true
 						}
 					}
-					if !isEval {
-						c.R.Violation(rule, "interpreter."+name+" stores another value", c.name(fn), c.P.InstrPos(in), "the value stored is not the result of parsley.EvaluateNode on this iteration's element")
+					if !inLoop {
+						c.R.Violation(rule, "interpreter."+name+" stores another value", c.name(fn), c.P.InstrPos(in), "the value stored is not computed from this iteration's element")
 						continue
 					}
 					c.R.Hold(rule, site, "dominates every back edge; stores this iteration's evaluated value")
